@@ -37,14 +37,20 @@ class ShimLock:
         if run is None:                      # not under exploration: behave like an uncontended lock
             self.owner, self.count = "main", self.count + 1
             return True
+        if not blocking:
+            # a try-lock is a scheduling point but never waits: it fails when another thread holds the lock
+            run._yield(tid, ("lock.try_acquire", id(self)))
+            if self.free_for(tid):
+                self.owner = tid
+                self.count += 1
+                return True
+            return False
         while True:
             run._yield(tid, ("lock.acquire", id(self)), waiting=self)
             if self.owner is None or (self.reentrant and self.owner == tid):
                 self.owner = tid
                 self.count += 1
                 return True
-            if not blocking:
-                return False
 
     def release(self):
         self.count -= 1
@@ -63,6 +69,33 @@ class ShimLock:
         return self.owner is None or (self.reentrant and self.owner == tid)
 
 
+class ShimEvent:
+    """Cooperative threading.Event."""
+
+    def __init__(self):
+        self.flag = False
+
+    def set(self):
+        self.flag = True
+
+    def clear(self):
+        self.flag = False
+
+    def is_set(self):
+        return self.flag
+
+    def free_for(self, tid):
+        return self.flag
+
+    def wait(self, timeout=None):
+        run, tid = _CURRENT.run, _CURRENT.tid
+        if run is None:
+            return self.flag
+        while not self.flag:
+            run._yield(tid, ("event.wait", id(self)), waiting=self)
+        return True
+
+
 class _Cur(threading.local):
     run = None
     tid = None
@@ -77,6 +110,7 @@ def shim_threading():
     ns = types.SimpleNamespace(**{k: getattr(real, k) for k in dir(real) if not k.startswith("__")})
     ns.Lock = lambda: ShimLock(False)
     ns.RLock = lambda: ShimLock(True)
+    ns.Event = ShimEvent
     return ns
 
 
@@ -291,4 +325,23 @@ def selftest():
 
     r2 = explore(make2, code_objects(code2), 2, "line", lambda r, box: (box[0] if not r.deadlock else "deadlock", None if box[0] == 2 and not r.deadlock else "bad"))
     assert not r2["violations"], r2
+    # a try-lock must be able to fail: "skip the update when the lock is busy" loses updates in some schedule
+    try_src = (
+        "def bump(box, lock):\n"
+        "    if lock.acquire(blocking=False):\n"
+        "        v = box[0]\n"
+        "        v = v + 1\n"
+        "        box[0] = v\n"
+        "        lock.release()\n"
+    )
+    code3 = compile(try_src, "<selftest3>", "exec")
+    ns3 = {}
+    exec(code3, ns3)
+
+    def make3():
+        box, lock = [0], ShimLock()
+        return [lambda: ns3["bump"](box, lock), lambda: ns3["bump"](box, lock)], box
+
+    r3 = explore(make3, code_objects(code3), 1, "line", lambda r, box: (box[0], None if box[0] == 2 else "skipped"))
+    assert r3["violations"], "a failing try-lock was never observed"
     return True
